@@ -145,3 +145,20 @@ Theorem C03_pinned_refuted : exists code input fuel p p',
   ibeh (ir_run fuel p' input) = beh (run_level all_fixed fuel code 0 input).
 Proof. exact CompProofs.compiled_pinned_refuted. Qed.
 Print Assumptions C03_pinned_refuted.
+
+(* non-vacuity: 형.. 형... 하앗... 흑 항. 흑... 항.  — level 2 pre-executes four commands (stack 3 holds 6, stack 0 a copy, stack 0
+   selected) and leaves three; the emitted program started on the input "A\n" and the level-0 interpreter both write U+0006 then A *)
+Example C03_examples :
+  let src := [54805;46;46;32;54805;46;46;46;32;54616;50519;46;46;46;32;55121;32;54637;46;32;55121;46;46;46;32;54637;46] in
+  (match optimize_prog all_fixed (parse src) 2 [] with OptOk r => (length (olog r), length (orest r)) | _ => (0, 0)%nat end) = (4, 3)%nat /\
+  (forall level, In level [0; 1; 2] ->
+     match compile_prog all_fixed true (parse src) level with
+     | Some p => ibeh (ir_run 100 p [Some [65; 10]]) = (KDone, [6; 65], [])
+     | None => False
+     end) /\
+  beh (run_level all_fixed 100 (parse src) 0 [Some [65; 10]]) = (KDone, [6; 65], []).
+Proof.
+  cbv zeta. split; [vm_compute; reflexivity|]. split; [|vm_compute; reflexivity].
+  intros level [<-|[<-|[<-|[]]]]; vm_compute; reflexivity.
+Qed.
+Print Assumptions C03_examples.
